@@ -15,7 +15,14 @@ import traceback
 
 
 class ChildFailed(Exception):
-    pass
+    """The child did not deliver a result.  `signal` is the number of the signal that killed it, if any."""
+    signal = None
+
+
+CRASH_SIGNALS = {}
+for _n in ('SIGSEGV', 'SIGBUS', 'SIGFPE', 'SIGILL', 'SIGABRT'):
+    if hasattr(signal, _n):
+        CRASH_SIGNALS[int(getattr(signal, _n))] = _n
 
 
 def call(fn, args=(), timeout=300):
@@ -54,7 +61,10 @@ def call(fn, args=(), timeout=300):
     _, status = os.waitpid(pid, 0)
     data = b''.join(chunks)
     if len(data) < 8:
-        raise ChildFailed('child produced no result (status %d)' % status)
+        e = ChildFailed('child produced no result (status %d)' % status)
+        if os.WIFSIGNALED(status):
+            e.signal = os.WTERMSIG(status)
+        raise e
     n = struct.unpack('<Q', data[:8])[0]
     if len(data) - 8 != n:
         raise ChildFailed('child result truncated (status %d)' % status)
